@@ -1,5 +1,6 @@
 import AsmjitVerif.Model.ConstPool
 import AsmjitVerif.Spec.ConstPool
+import AsmjitVerif.Model.ConstPoolEmit
 import Driver.Common
 open AsmjitVerif.ConstPool
 namespace Driver.C19
@@ -55,6 +56,103 @@ def imageReason (hist : List Spec.Entry) (size _align : Nat) (img : Bytes) : Str
   else if !((List.range size).all fun p => hist.any (Spec.covers · p) || img[p]? == some 0#8) then "gap-not-zero"
   else "alignment-does-not-cover"
 
+/-- epilog the backend emits for `void f()` without frame (the only functions the harness creates) -/
+def epilogOf : String → Option Bytes
+  | "x86" => some [0xC3#8]
+  | "a64" => some [0xC0#8, 0x03#8, 0x5F#8, 0xD6#8]
+  | _ => none
+
+def poolTail (c : Comp) (sc : Scope) : String :=
+  match (match sc with | .loc => c.loc | .glob => c.glob) with
+  | some cp => s!"{cp.pool.size} {cp.pool.alignment} {cp.pool.minItemSize}"
+  | none => "0 0 0"
+
+/-- `cc <arch> item...` on the model: answers, pool placement, section bytes -/
+def ccLine (arch : String) (items : List String) : String :=
+  match padOf arch, epilogOf arch with
+  | some pad, some epi =>
+    let rec go (c : Comp) (pools : List CPool) (acc : List String) : List String → Option (Comp × List String)
+      | [] => some (c, acc.reverse)
+      | it :: rest =>
+        if it == "F" then let (c', _) := addFunc c []; go c' pools ("ok" :: acc) rest
+        else if it == "E" then
+          let (c', ok) := endFunc c epi
+          go c' pools ((if ok then "ok" else "err InvalidState") :: acc) rest
+        else
+          match it.toList with
+          | k :: ':' :: h =>
+            match hexToBytes? (String.ofList h) with
+            | none => none
+            | some d =>
+              if k == 'd' then go (emitCode c d) pools ("ok" :: acc) rest
+              else if k == 'l' || k == 'g' then
+                let sc := if k == 'g' then Scope.glob else Scope.loc
+                let (c', a) := newConst c sc d
+                let t := poolTail c' sc
+                let ans := match a with
+                  | .mem l disp => s!"ok p{l} {disp} {t}"
+                  | .invalidArgument l => s!"err InvalidArgument p{l} {t}"
+                go c' pools (ans :: acc) rest
+              else none
+          | _ => none
+    match go Comp.init [] [] items with
+    | none => "bad-op"
+    | some (c, answers) =>
+      let nodes := finalizeNodes c epi
+      let sect := layout pad c.nextLabel nodes
+      -- every pool node ever created, by label: those in the node list, plus pending ones
+      let placed := nodes.filterMap fun | .pool cp => some cp | _ => none
+      let pending := (match c.loc with | some cp => [cp] | none => [])
+      let all := placed ++ pending
+      let descr := (List.range c.nextLabel).map fun l =>
+        match all.find? (fun cp => cp.label == l) with
+        | some cp =>
+          let o := match sect.offsetOf l with | some o => toString o | none => "unbound"
+          s!"p{l} {o} {cp.pool.size} {cp.pool.alignment}"
+        | none => s!"p{l} ?"
+      "cc" ++ (if answers.isEmpty then "" else " " ++ " | ".intercalate answers) ++ " ||"
+        ++ (if descr.isEmpty then "" else " " ++ " | ".intercalate descr) ++ " || " ++ hexOrDash sect.buf
+  | _, _ => "bad-op"
+
+def errName : EmbedError → String
+  | .invalidLabel => "InvalidLabel"
+  | .labelAlreadyBound => "LabelAlreadyBound"
+
+/-- `es <arch> <asm|bld> item...`: items `n` (new label), `d:<hex>`, `b<k>` (bind label k), `p<k>` (embed the pool at label k) -/
+def esLine (pool : Pool) (arch : String) (items : List String) : String :=
+  match padOf arch with
+  | none => "bad-op"
+  | some pad =>
+    let rec go (s : Sect) (acc : List String) : List String → Option (Sect × List String)
+      | [] => some (s, acc.reverse)
+      | it :: rest =>
+        if it == "n" then go (newLabel s) ("ok" :: acc) rest
+        else match it.toList with
+          | 'd' :: ':' :: h =>
+            match hexToBytes? (String.ofList h) with
+            | some d => go (emitBytes s d) ("ok" :: acc) rest
+            | none => none
+          | 'b' :: k =>
+            match (String.ofList k).toNat? with
+            | some k => match bindLabel s k with
+              | .ok s' => go s' ("ok" :: acc) rest
+              | .error e => go s (("err " ++ errName e) :: acc) rest
+            | none => none
+          | 'p' :: k =>
+            match (String.ofList k).toNat? with
+            | some k => match embedPool pad s k pool with
+              | .ok s' => go s' ("ok" :: acc) rest
+              | .error e => go s (("err " ++ errName e) :: acc) rest
+            | none => none
+          | _ => none
+    match go (Sect.empty 0) [] items with
+    | none => "bad-op"
+    | some (s, answers) =>
+      let labs := (List.range s.nlabels).map fun l =>
+        match s.offsetOf l with | some o => s!"L{l}={o}" | none => s!"L{l}=unbound"
+      "es" ++ (if answers.isEmpty then "" else " " ++ " | ".intercalate answers) ++ " ||"
+        ++ (if labs.isEmpty then "" else " " ++ " ".intercalate labs) ++ s!" || {pool.size} {pool.alignment} " ++ hexOrDash s.buf
+
 def parse3 : List String → Option (Nat × Nat × Nat)
   | [a, b, c] => do some (← a.toNat?, ← b.toNat?, ← c.toNat?)
   | _ => none
@@ -82,6 +180,8 @@ def step (st : St) (line : String) : St × String :=
       let (l, sec) := embed pad pre st.pool
       (st, s!"emb {l} {st.pool.size} {st.pool.alignment} {hexOrDash sec}")
     | _, _ => (st, "bad-op")
+  | "cc" :: arch :: items => (st, ccLine arch items)
+  | "es" :: arch :: _ :: items => (st, esLine st.pool arch items)
   -- monitor mode
   | ["m-new"] | ["m-reset"] => monStep st .reset fun _ => ""
   | "m-add" :: h :: ans =>
